@@ -283,7 +283,8 @@ func genCase(t *rapid.T) Case {
 	if g.Chance(1, 2, "decodemode") {
 		c.Mutation = &Mut{Enc: g.Pick(3, "enc"), Kind: []string{"truncate", "byte", "token", "dup", "swaptype", "insert", "badvalue", "badvalue", "extranode", "dupmember"}[g.Pick(10, "mkind")], Pos: g.Pick(100000, "pos"),
 			Arg: []string{"1.5", "1e3", "123456789012345678901234567890", "null", "true", "\"str\"", "[]", "{}", "[null]", "-0", "<x/>", "&amp;", " ", "9007199254740993", "0.1", "\"1\"",
-				"", "abc", "256", "-129", "1.234", "m1:zzz", "zzz", "99999999999999999999", " 5", "5 ", "+5", "0x10", "\u0661", "101", "65536", "m0:d1", "d1", "m1:e1", "e1", "two", "TRUE", "1.50", "00"}[g.Pick(39, "marg")]}
+				"", "abc", "256", "-129", "1.234", "m1:zzz", "zzz", "99999999999999999999", " 5", "5 ", "+5", "0x10", "\u0661", "101", "65536", "m0:d1", "d1", "m1:e1", "e1", "two", "TRUE", "1.50", "00",
+				"m1:d1", "zz:d1", "m0:e1", "zz:e1", "m1:d2", "m0:d2", ":d1", "m0:", "m1:one", "m0:5"}[g.Pick(49, "marg")]}
 	}
 	return c
 }
@@ -575,6 +576,7 @@ func checkCase(c Case) fw.Outcome {
 	// decoding mode
 	m := c.Mutation
 	out.Labels = append(out.Labels, "decode:"+encNames[m.Enc], "mut:"+m.Kind)
+	rejectedValue, rejectedLeaf := "", ""
 	if m.Kind == "badvalue" || m.Kind == "extranode" {
 		// the mutation is applied to the data tree; the encoder must not panic on it either
 		var leaves []*D
@@ -595,6 +597,19 @@ func checkCase(c Case) fw.Outcome {
 		if m.Kind == "badvalue" && len(leaves) > 0 {
 			l := leaves[m.Pos%len(leaves)]
 			l.Vals[m.Pos%len(l.Vals)] = m.Arg
+			// does the leaf's type reject the value?  (own-module qualified identities are a documented alternative form)
+			if ts := oi.types[l.Name]; ts != nil {
+				if sp, ok := sg.SpaceOf(c.Mods, oi.leafMod[l.Name], ts, oi.leafMod[l.Name]); ok && !sp.Contains(m.Arg) {
+					own := oi.leafMod[l.Name].Name + ":"
+					if !(strings.HasPrefix(m.Arg, own) && sp.Contains(strings.TrimPrefix(m.Arg, own))) {
+						// plain JSON numbers, booleans and null are written raw: the bytes then do not carry the value as given
+						raw := sp.Kind == "int" || sp.Kind == "uint" || sp.Kind == "boolean" || sp.Kind == "empty"
+						if m.Enc == 2 || !raw {
+							rejectedValue, rejectedLeaf = m.Arg, l.Name
+						}
+					}
+				}
+			}
 		} else if len(interiors) > 0 && len(leaves) > 0 {
 			// a node of the schema in a place where the schema does not have it
 			it := interiors[m.Pos%len(interiors)]
@@ -647,6 +662,10 @@ func checkCase(c Case) fw.Outcome {
 		}
 		out.Labels = append(out.Labels, "decode-ok")
 		out.NonTrivial = true
+		if rejectedLeaf != "" {
+			out.Violation = fmt.Sprintf("%s decoder accepted %q for leaf %s although its type rejects it (a rejected value must not be altered into an accepted one)\ninput: %q\n%s", encNames[m.Enc], rejectedValue, rejectedLeaf, in, src)
+			return out
+		}
 		if msg := conforms(c.Mods, oi, known, got.Kids, false, "root"); msg != "" {
 			out.Violation = fmt.Sprintf("%s decoder accepted input that does not conform: %s\ninput: %q\n%s", encNames[m.Enc], msg, in, src)
 			return out
